@@ -572,8 +572,17 @@ def extract_fn(repo, d, template_text, template_path=None):
             sig, body = _resplit(whole)
             tr.append({"kind": kind, "old": rustscan.norm_ws(old), "new": rustscan.norm_ws(new), "element": f"&{coll}[{idx}]"})
             continue
+        if s.get("optional"):
+            if kind not in ("std-wrap", "std-wrap-all"):
+                raise ExtractError("only std-wrap substitutions may be optional")
+            rx0, _ = _meta_regex(old)
+            if not re.search(rx0, whole):
+                tr.append({"kind": kind, "old": rustscan.norm_ws(old)[:200], "skipped": "the wrapped call does not occur in the current text (optional substitution)"})
+                continue
         if kind == "std-wrap-all":
             # every occurrence of a receiver expression is routed through a trusted accessor
+            if "$" in old:
+                raise ExtractError("std-wrap-all takes literal text (wildcards are only substituted by std-wrap)")
             rx, _ = _meta_regex(old)
             cnt = len(re.findall(rx, whole))
             if cnt < 1:
@@ -862,7 +871,7 @@ def parse_template(text):
                 if k == "spec":
                     d["spec"] = t
                 elif k == "subst_old":
-                    d["subst"].append({"kind": cur[1], "old": t})
+                    d["subst"].append({"kind": cur[1], "old": t, "optional": len(cur) > 2 and cur[2]})
                 elif k == "subst_new":
                     d["subst"][-1]["new"] = t
                 elif k == "proof_anchor":
@@ -886,7 +895,8 @@ def parse_template(text):
                     cur = ("spec",)
                 elif s2.startswith("//@SUBST"):
                     flush()
-                    cur = ("subst_old", s2.split()[1])
+                    # `//@SUBST? kind`: the wrapped std call may be absent (the code no longer uses it): then nothing is replaced
+                    cur = ("subst_old", s2.split()[1], s2.split()[0].endswith("?"))
                 elif s2.startswith("//@PROOF") and s2.split()[1] in ("before-stmt", "after-stmt"):
                     flush()
                     d["proof"].append({"where": s2.split()[1], "n": int(s2.split()[2]), "anchor": ""})
